@@ -351,6 +351,14 @@ def coerce(ip, v: V, t):
             return tok
     if isinstance(v, VOpt):
         v = ip.unopt(v)
+    if t[0] in ("set", "seq") and isinstance(v, (VSet, VSeq)):
+        # a mutable collection stored BY REFERENCE inside another collection: from now on both owners see each other's
+        # updates.  The value model has no aliasing between collections, so this is reported as an ownership violation
+        # (the content is copied in order to go on).
+        if not ip.spec_mode:
+            ip.check("ownership:no-shared-mutable-collection", z3.BoolVal(False),
+                     where="a set/list object that belongs to another object is stored by reference (shared mutable state)")
+        return ip.st.heap[(v.ref, "set" if isinstance(v, VSet) else "seq")]
     if t[0] in ("obj", "symobj") and isinstance(v, VObj) and not v.symbolic:
         # a heap object stored into a collection of immutable objects: a symbolic twin with equal first-order fields
         twin = VObj(t[1], ip.st.fresh("stored_" + t[1].split("@")[0], obj_sort(t[1])))
